@@ -79,6 +79,7 @@ def run(repo, rep, tier):
     _part_errors(repo, rep)
     _group_helpers(repo, rep)
     _text_visits(repo, rep)
+    rebuilt_tokens(repo, rep)
     _match_spans(repo, rep)
     _location(repo, rep)
     _census(repo, rep)
@@ -649,13 +650,18 @@ def _edited_upstream(repo, rep):
     source[offset:offset+len(token)]."""
     from .c12 import _extent
     L.borrow(repo, rep, "R11.2", "C12", _extent,
-             ("decoded-before-ref", "unescaped-before-ref"), minimum=3)
+             ("decoded-before-ref", "unescaped-before-ref",
+              "decode-keeps-token"), minimum=4)
     # ... and a valid template is never rejected: the clause splitter has
     # to work on the text as written (decoded first, 'a&amp;b; y 2' reads
     # 'a&b; y 2' and '&b;' is protected like an entity)
     from .c07 import _split_on_written_text
     L.borrow(repo, rep, "R11.5", "C07", _split_on_written_text,
              ("split-after-decode",))
+    # the error of a non-strict template is raised later from a pickled
+    # copy: what is pickled is the caught error, token and source included
+    from .c19 import deferred_error_untouched
+    deferred_error_untouched(repo, rep, rule="R11.4")
     f = repo.func("chameleon.tales.TalesExpr.__call__")
     edits = []
     for n in ast.walk(f.node):
@@ -925,6 +931,72 @@ def _text_visits(repo, rep):
                                  "${...} are reported at offset 0" % src(
                                      c.args[0])[:60])
     rep.count("visit_text_calls", n)
+
+
+def rebuilt_tokens(repo, rep, rule="R11.2"):
+    """A Token assembled by hand from literal text around an existing token
+    -- Token('<?' + name + ..., POS, ...) -- stands where the literal prefix
+    starts: POS = name.pos - len(prefix)."""
+    n = 0
+    for q, f in sorted(repo.funcs.items()):
+        if f.module.name == "chameleon.tokenize":
+            continue
+        for c in ast.walk(f.node):
+            if not (isinstance(c, ast.Call) and src(c.func) == "Token"
+                    and len(c.args) >= 2):
+                continue
+            t = c.args[0]
+            if isinstance(t, ast.Name):
+                # the nearest assignment in front of the call
+                prev = [a for a in ast.walk(f.node) if isinstance(a, ast.Assign)
+                        and a.lineno < c.lineno and len(a.targets) == 1
+                        and src(a.targets[0]) == t.id]
+                if prev:
+                    t = max(prev, key=lambda a: a.lineno).value
+            ops = []
+
+            def flat(e):
+                if isinstance(e, ast.BinOp) and isinstance(e.op, ast.Add):
+                    flat(e.left)
+                    flat(e.right)
+                else:
+                    ops.append(e)
+            flat(t)
+            k = 0
+            base = None
+            for o in ops:
+                if isinstance(o, ast.Constant) and isinstance(o.value, str):
+                    k += len(o.value)
+                    continue
+                base = o
+                break
+            if base is None or len(ops) < 2 or not isinstance(
+                    base, (ast.Name, ast.Subscript, ast.Attribute)):
+                continue
+            pos = c.args[1]
+            want = src(base) + ".pos"
+            got = None
+            if src(pos) == want:
+                got = 0
+            elif isinstance(pos, ast.BinOp) and src(pos.left) == want and \
+                    isinstance(pos.right, ast.Constant) and \
+                    isinstance(pos.right.value, int):
+                got = pos.right.value if isinstance(pos.op, ast.Sub) else (
+                    -pos.right.value if isinstance(pos.op, ast.Add) else None)
+            if got is None:
+                continue
+            n += 1
+            rep.check(got == k, rule, f.qualname, "a token rebuilt from %d "
+                      "literal character(s) in front of %s starts %d "
+                      "character(s) before it" % (k, src(base), k),
+                      construct="rebuilt-token-pos:" + f.name,
+                      where=L.where(f, c.lineno),
+                      detail="position given: %s" % src(c.args[1]))
+    rep.count("rebuilt_tokens", n)
+    rep.check(n >= 1, rule, "chameleon.zpt.program.MacroProgram."
+              "visit_processing_instruction", "the text of a processing "
+              "instruction is re-assembled as a Token (with a position)",
+              construct="rebuilt-token-present", detail="%d found" % n)
 
 
 def _match_spans(repo, rep):
